@@ -64,7 +64,7 @@ def generate(tier, rng):
             items.append((auth_line(realm, users, b"Basic " + base64.b64encode(u + p)), ch))
             items.append((auth_line(realm, users, b"Basic " + base64.b64encode(p + b":" + u)), ch if p + b":" + u != u + b":" + p else "chal=-"))
             items.append((auth_line(realm, users, b"Digest " + good), ch))
-    nrand = 400 if tier == "quick" else 20000
+    nrand = 3000 if tier == "quick" else 20000
     for _ in range(nrand):
         realm, users = rng.choice(TABLES)
         kind = rng.below(4)
@@ -83,7 +83,7 @@ def generate(tier, rng):
         items.append(("b64rt " + hx(rng.bytes(n)), ("rt", n)))
     for a in range(256):
         items.append(("b64rt " + hx(bytes([a])), ("rt", 1)))
-    for _ in range(300 if tier == "quick" else 5000):
+    for _ in range(1500 if tier == "quick" else 5000):
         items.append(("b64rt " + hx(rng.bytes(rng.choice([2, 3, 56, 57, 58, 59, 113, 114, 115, 171]))), ("rt", 0)))
     cases = []
     for bi in range(0, len(items), BATCH):
